@@ -302,6 +302,18 @@ def sign_completion(ctx, repo):
                     isinstance(inner.args[1], _a.Constant) and inner.args[1].value == 0:
                 return n >= 1
         return None
+    # the atom that fixes the signs is chosen by ATOM ORDER (the first atom with three non-zero projections): the same atom in the
+    # reference and in every frame of a rigid molecule.  A choice by an extremum over the atoms (farthest atom per axis) is decided
+    # by rounding noise whenever two symmetry-equivalent atoms tie, so an axis sign can flip between reference and frame.
+    ctx.instance("SELECT")
+    ext = [c for c in _a.walk(fi.node) if isinstance(c, _a.Call) and src(c.func).split(".")[-1] in ("argmax", "argmin", "nanargmax", "nanargmin")]
+    if ext:
+        ctx.violate("SELECT", "C11.signfix.reference", "the atom that fixes the sign of a principal axis is chosen by an extremum over the atoms "
+                    "(per axis): for molecules with symmetry-equivalent atoms (projections +a and -a) rounding noise picks the winner frame by "
+                    "frame, one axis sign flips relative to the reference and the recovered rotation is off by 180 degrees", fi.where,
+                    src(ext[0])[:140], witness="water with equal O-H bonds: |proj(H1)| == |proj(H2)| up to 1 ulp")
+    else:
+        ctx.ok("SELECT", "C11.signfix.reference", "the sign-fixing atom is chosen by atom order, not by an extremum over the atoms", fi.where)
     # the replacement:  D = <loop variable of a loop over literal sign triples>
     repl = None
     for loop in _a.walk(fi.node):
